@@ -11,6 +11,7 @@
 //
 //	typed <schema> <mut> <path> <oracle> <env> <files> <tree>            see typed.go
 //	app  <iface> <name> <mut> <path> <oracle> <env> <files> <section>   see applied.go
+//	env  <env> <namehex>                                       confutil.EnvTagResolver(name) with exactly these variables set (round 7)
 //	hdr  <n> <hex,hex,...>                                     util.DecodeHeader on every line + util.DecodeHTTPConfigHeaders on the list
 //	prop <hex content> <hex key>                                the content written to a file, confutil.PropertyTagResolver("file#key")
 //
@@ -505,6 +506,10 @@ func run(cases []string) []string {
 			res = runHdr(f[1], f[2])
 		case f[0] == "prop" && len(f) == 3:
 			res = runProp(string(vh.UnHex(f[1])), string(vh.UnHex(f[2])))
+		case f[0] == "env" && len(f) == 3:
+			undo := setupEnv(f[1], "-")
+			res = runEnv(string(vh.UnHex(f[2])))
+			undo()
 		default:
 			res = "badcase"
 		}
@@ -606,8 +611,100 @@ func runProp(content, key string) (res string) {
 	return "ok " + vh.HexS(v)
 }
 
+// the resolver behind ${env:NAME} on its own: the environment is the variables of the case line
+func runEnv(name string) (res string) {
+	defer func() {
+		if r := recover(); r != nil {
+			res = "panic"
+		}
+	}()
+	v, err := confutil.EnvTagResolver(name)
+	if err != nil {
+		return "err"
+	}
+	return "ok " + vh.HexS(v)
+}
+
+// envNearMisses: names that are NOT the given variable but look like it -- other letter case, a proper prefix, a
+// proper suffix, extensions at either end
+func envNearMisses(name string) []string {
+	title := strings.ToUpper(name[:1]) + strings.ToLower(name[1:])
+	mixed := []byte(strings.ToLower(name))
+	for i := 0; i < len(mixed); i += 2 {
+		mixed[i] = strings.ToUpper(string(mixed[i]))[0]
+	}
+	cands := []string{strings.ToLower(name), strings.ToUpper(name), title, string(mixed), name[:len(name)-1], name[1:], name + "_", name + "X", "X" + name, "_" + name}
+	var out []string
+	seen := map[string]bool{name: true, "": true}
+	for _, c := range cands {
+		if !seen[c] {
+			seen[c] = true
+			out = append(out, c)
+		}
+	}
+	return out
+}
+
+// withDecoys: the environment of the case plus look-alikes of every variable in it, holding other values
+func withDecoys(ce caseEnv, r *vh.Rand) caseEnv {
+	env := map[string]string{}
+	for k, v := range ce.env {
+		env[k] = v
+	}
+	for k, v := range ce.env {
+		for _, m := range envNearMisses(k) {
+			if _, ok := env[m]; !ok && r.Chance(1, 2) {
+				env[m] = "decoy-" + v
+			}
+		}
+	}
+	ce.env = env
+	return ce
+}
+
 func genDirect(r *vh.Rand, thorough bool) []string {
 	var out []string
+	// the environment: a handful of variables whose names resemble each other; the asked name is one of the family
+	{
+		n := 150
+		if thorough {
+			n = 3000
+		}
+		letters := "abcXYZ_09"
+		vals := []string{"v", "", "a=b", "other value", "17", "${env:A16_E}", " x "}
+		one := func(name string, set []string) string {
+			ce := caseEnv{env: map[string]string{}}
+			for _, k := range set {
+				ce.env[k] = r.Pick(vals)
+			}
+			return "env " + ce.envToken() + " " + vh.HexS(name)
+		}
+		fam0 := append([]string{"A16_E_Name"}, envNearMisses("A16_E_Name")...)
+		for _, asked := range fam0 {
+			// only look-alikes are set / everything but the asked name / everything
+			var others []string
+			for _, k := range fam0 {
+				if k != asked {
+					others = append(others, k)
+				}
+			}
+			out = append(out, one(asked, others), one(asked, fam0), one(asked, nil))
+		}
+		for i := 0; i < n; i++ {
+			base := "A16_E_"
+			for j, m := 0, 1+r.Intn(5); j < m; j++ {
+				base += string(letters[r.Intn(len(letters))])
+			}
+			fam := append([]string{base}, envNearMisses(base)...)
+			var set []string
+			for _, k := range fam {
+				if r.Chance(1, 3) {
+					set = append(set, k)
+				}
+			}
+			out = append(out, one(r.Pick(fam), set))
+		}
+	}
 	// header lists: every malformed kind alone and at each position of a three-line list, then PRNG lists
 	for _, b := range hdrBad {
 		out = append(out, hdrCase([]string{b}), hdrCase([]string{b, hdrGood[0], hdrGood[1]}), hdrCase([]string{hdrGood[0], b, hdrGood[1]}), hdrCase([]string{hdrGood[0], hdrGood[1], b}))
@@ -1150,6 +1247,16 @@ func mutate(e emitter, reg *s.Reg, rootNode *s.Node, base *s.V, prefix s.Path, l
 				}
 			}
 		}
+		// relations between options that the component's constructor enforces (ctor-rel: file / uris / decoder of the
+		// http providers): every combination of absent / empty / set for each option a relation mentions (and every text an
+		// `is:` condition compares with, plus another one), the rest of the section as it is
+		if e.head[0] == "full" && st.IsMapNode && st.Node.Kind == "plugin" && st.Conf != nil && node != nil && node.K == 'm' {
+			if rels := s.Rels(st.Conf); len(rels) > 0 {
+				for _, sec := range relSections(st.Conf, rels, node) {
+					e.emit("rel", st.Path, none, base.ReplaceAt(st.Path, sec))
+				}
+			}
+		}
 		// an option whose documented form is enforced by the component's constructor: the list of default headers
 		if _, ok := hasTagH(st.Validate, "ctor-headers"); ok && node != nil && node.K == 'l' {
 			for i, w := range headerLists() {
@@ -1195,7 +1302,8 @@ func mutate(e emitter, reg *s.Reg, rootNode *s.Node, base *s.V, prefix s.Path, l
 				var ce caseEnv
 				var ph string
 				if i%2 == 0 {
-					ce = caseEnv{env: map[string]string{envVar: text}}
+					// look-alike variables (other letter case, prefix, suffix, extension) hold other texts
+					ce = withDecoys(caseEnv{env: map[string]string{envVar: text}}, rnd)
 					ph = "${env:" + envVar + "}"
 				} else {
 					// the file also holds keys that extend the asked one (k10 is listed before k1, k1x after it)
@@ -1290,6 +1398,26 @@ func mutate(e emitter, reg *s.Reg, rootNode *s.Node, base *s.V, prefix s.Path, l
 				e.emit("phe", st.Path, caseEnv{env: map[string]string{envVar: a}}, base.ReplaceAt(st.Path, s.Str(pA+mid+"${env:"+envUnset+"}")))
 			}
 			e.emit("phe", st.Path, none, base.ReplaceAt(st.Path, s.Str("${env:"+envUnset+"}")))
+			// the variable is unset, but variables whose names resemble it are not (other letter case, prefix, suffix,
+			// extension); they hold a text that would do in this position: all of them, and one drawn from the PRNG
+			{
+				text := "x"
+				if len(lits) > 0 {
+					text = lits[0][0].(string)
+				}
+				near := envNearMisses(envUnset)
+				all := caseEnv{env: map[string]string{}}
+				for _, m := range near {
+					all.env[m] = text
+				}
+				e.emit("phe", st.Path, all, base.ReplaceAt(st.Path, s.Str("${env:"+envUnset+"}")))
+				m := near[rnd.Intn(len(near))]
+				e.emit("phe", st.Path, caseEnv{env: map[string]string{m: text}}, base.ReplaceAt(st.Path, s.Str(rnd.Pick([]string{"${env:", "${", "${ENV:", "${env: "})+envUnset+"}")))
+				if n.Scalar == "string" && node.K == 's' && len(node.S) >= 2 {
+					// embedded in literal text
+					e.emit("phe", st.Path, caseEnv{env: map[string]string{m: node.S[1:]}}, base.ReplaceAt(st.Path, s.Str(node.S[:1]+"${env:"+envUnset+"}")))
+				}
+			}
 			e.emit("phe", st.Path, caseEnv{props: map[string]string{propFile + "#other": "1"}}, base.ReplaceAt(st.Path, s.Str("${property:"+propFile+"#"+propKey+"}")))
 			// a missing property whose name is a proper prefix of existing keys
 			e.emit("phe", st.Path, caseEnv{props: map[string]string{propFile + "#" + propKey + "0": "1", propFile + "#" + propKey + "x": "2"}},
@@ -1301,6 +1429,100 @@ func mutate(e emitter, reg *s.Reg, rootNode *s.Node, base *s.V, prefix s.Path, l
 			e.emit("req:"+vh.HexS(st.Path[len(st.Path)-1].Key), parent, none, base.RemoveKey(parent, st.Path[len(st.Path)-1].Key))
 		}
 	}
+}
+
+// relSections: the component's section with the options mentioned by its relations written in every combination
+func relSections(conf *s.Node, rels []s.Rel, node *s.V) []*s.V {
+	keys := map[string][]string{}
+	for _, r := range rels {
+		r.Pre.Keys(keys)
+		r.Post.Keys(keys)
+	}
+	var names []string
+	for k := range keys {
+		names = append(names, k)
+	}
+	sort.Strings(names)
+	alts := map[string][]*s.V{} // nil = not written
+	for _, k := range names {
+		var fn *s.Node
+		for _, f := range s.FlatFields(conf) {
+			if f.Key == k {
+				fn = f.Node
+			}
+		}
+		if fn == nil {
+			return nil
+		}
+		a := []*s.V{nil}
+		switch {
+		case fn.Kind == "scalar" && fn.Scalar == "string":
+			a = append(a, s.Str(""))
+			if len(keys[k]) == 0 {
+				set := "a16rel.txt"
+				if cur := node.Get(k); cur != nil && cur.K == 's' && cur.S != "" {
+					set = cur.S
+				}
+				a = append(a, s.Str(set))
+			}
+			seen := map[string]bool{}
+			for _, t := range keys[k] {
+				if !seen[t] {
+					seen[t] = true
+					a = append(a, s.Str(t))
+				}
+			}
+			if len(keys[k]) > 0 {
+				a = append(a, s.Str("a16-other"))
+			}
+		case fn.Kind == "slice" && fn.Elem != nil && fn.Elem.Kind == "scalar" && fn.Elem.Scalar == "string":
+			a = append(a, s.List(), s.List(s.Str("/a16")), s.List(s.Str("/a16/x"), s.Str("/a16/y?z=1")))
+		case fn.Kind == "scalar" && fn.Scalar == "bool":
+			a = append(a, s.Bool(false), s.Bool(true))
+		case fn.Kind == "scalar" && (fn.Scalar == "int" || fn.Scalar == "uint"):
+			a = append(a, s.Int(0), s.Int(1))
+		default:
+			return nil
+		}
+		alts[k] = a
+	}
+	var out []*s.V
+	idx := make([]int, len(names))
+	for {
+		sec := &s.V{K: 'm'}
+		for _, kv := range node.M {
+			if _, mentioned := keys[kv.Key]; !mentioned {
+				sec.M = append(sec.M, kv)
+			}
+		}
+		for i, k := range names {
+			if v := alts[k][idx[i]]; v != nil {
+				sec.M = append(sec.M, s.KV{k, v})
+			}
+		}
+		// semantic hint (outside the decoding rules): with preload on, the jsonline decoder reads its file while the
+		// provider is constructed -- the file has to hold jsonline ammo
+		if d := sec.Get("Decoder"); d != nil && d.K == 's' && d.S == "jsonline" {
+			for j, kv := range sec.M {
+				if kv.Key == "File" && kv.Val.K == 's' && kv.Val.S != "" {
+					sec.M[j].Val = s.Str("a16.jsonl")
+				}
+			}
+		}
+		out = append(out, sec)
+		i := 0
+		for ; i < len(names); i++ {
+			idx[i]++
+			if idx[i] < len(alts[names[i]]) {
+				break
+			}
+			idx[i] = 0
+		}
+		if i == len(names) {
+			break
+		}
+	}
+	return out
 }
 
 // constructors are not modelled: a placeholder case is kept only when the configuration with the literal
@@ -1554,6 +1776,11 @@ func gen(r *vh.Rand, tier string) []string {
 					lower.InsertKey(pool, "discard_overflow", s.Str("${property:"+propFile+"#"+propKey+"}")))
 			}
 			emc.emit("phe", dpath, caseEnv{}, lower.InsertKey(pool, "discard_overflow", s.Str("${env:"+envUnset+"}")))
+			for _, m := range envNearMisses(envUnset) {
+				if rnd.Chance(1, 3) {
+					emc.emit("phe", dpath, caseEnv{env: map[string]string{m: "false"}}, lower.InsertKey(pool, "discard_overflow", s.Str("${env:"+envUnset+"}")))
+				}
+			}
 			emc.emit("unk:"+vh.HexS(unkKey), pool, caseEnv{}, lower.InsertKey(pool, unkKey, s.Int(1)))
 			emc.emit("unk:"+vh.HexS(unkKey), nil, caseEnv{}, lower.InsertKey(nil, unkKey, s.Int(1)))
 			for _, key := range []string{"rps", "startup", "gun", "ammo", "result"} {
